@@ -169,6 +169,21 @@ const HELPER_ATTRS: &[&str] = &[
     "#[ord::x]",
     "#[repr(C)]",
 ];
+/// Expressions for `key = ...` / `by = ...`: the template placeholder (`$`, or the reserved
+/// identifier it is rewritten to) in expression and non-expression positions, with and without
+/// a `$` elsewhere in the same attribute.
+pub const KEY_EXPRS: &[&str] = &[
+    "$", "$.0", "$.len()", "($.0, $.1)", "&$", "*$", "$ as u8", "$[0]", "f($)", "m!($)", "[$, $]",
+    "{ let a = $; a }", "|a| $", "if $ { 1 } else { 2 }", "-$", "!$", "$?", "$.await", "$ + $",
+    "{ let $ = 1; 0 }", "|$| 1", "$::K", "S { $: 1 }", "x.$", "$!()", "$ { a: 1 }", "$::<u8>()",
+    "match 1 { $ => 2 }", "'a: loop { $ }", "$ = 1", "for $ in 0..1 {}", "x::$::y",
+    "__placeholder", "__placeholder.0", "__placeholder.len()", "{ let __placeholder = 1; 0 }",
+    "|__placeholder| 1", "__placeholder::K", "S { __placeholder: 1 }", "x.__placeholder",
+    "__placeholder!()", "match 1 { __placeholder => 2 }", "{ let __placeholder = 1; $ }",
+    "x.__placeholder + $", "(__placeholder, $)", "r#__placeholder", "for __placeholder in 0..1 {}",
+    "1", "\"s\"", "()", "x", "self", "Self::K", "this", "other", "state", "_self_0", "|a, b| a == b",
+    "f", "f64::total_cmp", "|a, h| a.hash(h)", "|a, b| a.partial_cmp(b)", "|a, b| a.cmp(b)",
+];
 const TYPES: &[&str] = &[
     "u8", "String", "T", "U", "Vec<T>", "Option<T>", "&'a T", "&'a str", "[T; N]", "[u8; 3]",
     "(T, u8)", "()", "fn(T) -> T", "dyn A + B", "dyn A", "Box<dyn Fn(T) -> T>",
@@ -255,6 +270,10 @@ const ALT_ITEMS: &[&str] = &[
     "impl Add<'a> for X { type Output = X; }",
     "impl Add<> for X { type Output = X; }",
     "impl Add<{ 1 }> for X { type Output = X; }",
+    "impl Add for W<Self> { type Output = Self; fn add(self, rhs: Self) -> Self { self } }",
+    "impl Add<Self> for (Self, u8) { type Output = Self; }",
+    "impl<T: Tr<Self>> Add<T> for [Self; 2] where Self: Sized { type Output = Option<Self>; }",
+    "impl AddAssign<&Self> for Box<Self> { fn add_assign(&mut self, rhs: &Self) {} }",
     "impl ::core::ops::Sub for X { type Out = X; }",
     "impl Sub for &'a X { type Output = X; fn sub(self, rhs: Self) -> X { X } }",
     "impl Sub for &mut X { type Output = X; fn sub(self, rhs: Self) -> X { X } }",
@@ -580,6 +599,43 @@ fn op_attr_insert(c: &mut Cand, rng: &mut Rng, _: &Pool) -> bool {
         return false;
     }
     let d = rng.below(slots.len());
+    let at = rng.below(slots[d].len() + 1);
+    slots[d].insert(at, a);
+    true
+}
+fn op_key_expr(c: &mut Cand, rng: &mut Rng, _: &Pool) -> bool {
+    // `#[<cmp>(key = <expr>)]` / `by = <expr>` (optionally with more arguments) on a field,
+    // variant or the type
+    let cmp = rng.pick_str(&["ord", "partial_ord", "eq", "partial_eq", "hash"]);
+    let arg = if rng.chance(3, 4) { "key" } else { "by" };
+    let expr = rng.pick_str(KEY_EXPRS);
+    let extra = match rng.weighted(&[10, 1, 1, 1, 1]) {
+        0 => String::new(),
+        1 => ", bound(T)".to_string(),
+        2 => ", reverse".to_string(),
+        3 => format!(", by = {}", rng.pick_str(KEY_EXPRS)),
+        _ => ", ignore".to_string(),
+    };
+    let Some(a) = attr_from(&format!("#[{cmp}({arg} = {expr}{extra})]")) else {
+        return false;
+    };
+    let mut slots = attr_slots(&mut c.item);
+    if slots.is_empty() {
+        return false;
+    }
+    // prefer field slots (everything after the first)
+    let d = if slots.len() > 1 && !rng.chance(1, 6) {
+        1 + rng.below(slots.len() - 1)
+    } else {
+        rng.below(slots.len())
+    };
+    // replace an existing attribute of the same name half of the time
+    if let Some(pos) = slots[d].iter().position(|x| x.path().is_ident(cmp)) {
+        if rng.chance(1, 2) {
+            slots[d][pos] = a;
+            return true;
+        }
+    }
     let at = rng.below(slots[d].len() + 1);
     slots[d].insert(at, a);
     true
@@ -1463,7 +1519,9 @@ fn op_impl_edit(c: &mut Cand, rng: &mut Rng, _: &Pool) -> bool {
             let Some(ty) = ps::<Type>(rng.pick_str(&[
 "X", "&X", "&'a X", "&mut X", "dyn A + B", "(X, X)", "[X]", "X<T>", "&X<T>",
                 "&&X", "Self", "T", "Box<X>", "&dyn A", "fn(X)", "!", "(dyn A + B)", "*const X",
-                "impl Tr", "&(dyn A + B)", "r#type", "<X as Tr>::Assoc",
+                "impl Tr", "&(dyn A + B)", "r#type", "<X as Tr>::Assoc", "Box<Self>", "(Self, u8)",
+                "[Self; 2]", "W<Self>", "&Self", "fn(Self) -> Self", "<Self as Tr>::Assoc",
+                "dyn Tr<Self>", "W<W<Self>>", "&'a mut [Self]", "W<{ Self::N }>",
             ])) else {
                 return false;
             };
@@ -1569,6 +1627,7 @@ const OPS: &[(&str, Op, usize)] = &[
     ("attr-move", op_attr_move, 5),
     ("attr-insert", op_attr_insert, 10),
     ("attr-args-edit", op_attr_args_edit, 14),
+    ("key-expr", op_key_expr, 6),
     ("trait-list", op_trait_list, 12),
     ("field-delete", op_field_delete, 4),
     ("field-duplicate", op_field_duplicate, 3),
@@ -1790,6 +1849,11 @@ pub fn selftest_dictionaries() -> Vec<String> {
     for s in BOUND_ARGS {
         if lex(s).is_none() {
             bad.push(format!("BOUND_ARGS: {s}"));
+        }
+    }
+    for s in KEY_EXPRS {
+        if attr_from(&format!("#[ord(key = {s})]")).is_none() {
+            bad.push(format!("KEY_EXPRS: {s}"));
         }
     }
     for s in ALT_ITEMS {
